@@ -370,9 +370,14 @@ def run(ctx):
                     "line <= 32; outcome a function of the stored line lengths; invariant under permutation of the STORED "
                     "captions and under change of keys", "whole reader model (parsed lines, simulate_roll_up=False): read "
                     "never returns a line > 32 and the error names every over-long stored line (C15_read_never_silent)",
-                    "pre-fix scan refuted by a witness"],
+                    "pre-fix scan refuted by a witness",
+                    "order clause at stream level for pop-on loads of plain rows of any length on non-adjacent screen rows: "
+                    "raises iff some row > 32, in every order, naming every over-long row; outcome a function of the "
+                    "multiset of row lengths"],
         "correspondence_only": ["invariance under the order of TRANSMISSION (all orders of a load are executed and compared; "
-                                "stream-level theorem for pop-on loads of non-adjacent rows: see props/C15.v if present)",
+                                "stream-level theorems on the decoder model: pop-on loads of plain non-adjacent rows of any "
+                                "length - C15_plain_load_order_free / _lengths_only - and every load_wf load - "
+                                "C15_popon_row_order_free; other shapes and modes by execution only)",
                                 "decoding of a stream into lines: full decoder model vs implementation (outcome + texts)",
                                 "simulate_roll_up=True and offset != 0: oracle on the implementation only",
                                 "reader reuse: second read compared with a fresh reader"]}
